@@ -26,8 +26,12 @@ def scenarios(thorough=False):
             # by the limit, States.Timeout, and the exact classification of those findings needs to see it stuck)
             # (the large generated machines kept in corpus/engine.json for C02 / C11 are left out too: several of the open
             # findings combine in them in ways neither the model's skeletons nor the fallback classifier cover)
+            # (definitions the engine cannot interpret are C18's; the witnesses of the fan-out protocol findings are left out
+            # as well: their plans answer the n-th request, and a fan-out re-launched from its held event after a crash
+            # (the open findings C04-F2 / F4: join state is volatile) repeats requests, which shifts which attempt of the
+            # retried fan-out fails — like the gen* machines, a combination neither the model nor the classifiers cover)
             if sc.extra.get("fail_payload") is None and "TimeoutSeconds" not in sc.machine and not sc.name.startswith(("oversize", "gen")) \
-                    and sc.sm_type == "STANDARD":
+                    and sc.sm_type == "STANDARD" and not sc.extra.get("illformed") and not sc.extra.get("finding"):
                 sc.name = "corpus:" + sc.name
                 out.append(sc)
     out.append(S("seq-task-wait", {"StartAt": "T", "States": {"T": T("f1", Next="W"), "W": {"Type": "Wait", "Seconds": 2, "Next": "P"},
@@ -145,6 +149,7 @@ def start(scn, share_stores):
             return r
         s.add_worker(fn, plan)
     ea = s.start_execution(ARN + "m1", json.loads(json.dumps(scn.data)), name="e1")
+    s.plans = pl            # (the oracle of the run, for the reference semantics)
     return s, ea
 
 
@@ -327,6 +332,21 @@ def classify_by_hand(f, case, impl, model):
     return False
 
 
+def model_skeleton(chk, scn, s, ea):
+    """the skeleton of the scenario's crash-free run as `Asl.run` computes it (None: outside the skeletons)"""
+    import crashmodel as cm
+    if scn.extra.get("machines") or not hasattr(s, "plans"):
+        return None
+    from props import c01
+    a = common.driver([c01.model_line(scn.machine, scn.data, ea, s.plans.oracle())])[0].split("\t")
+    if a[0] != "ok":
+        return None
+    try:
+        return cm.model_skeleton(json.loads(a[1]))
+    except cm.Unsupported:
+        return None
+
+
 def classify_by_model(f, case, impl, model):
     """A crash run that breaks one of the laws is the known finding `f` exactly when the protocol model (lean/AslModel/Crash.lean)
     with the switches of all open findings on reproduces what the engine did, and with `f`'s switch off it does not
@@ -483,6 +503,9 @@ def run(chk):
             ref_trace = list(s.trace)
             ref_bag = request_bag(s)
             ops = s.broker.op_count.get("conn1", 0)
+            # the skeleton is read off the labelled crash-free run of the engine (the only source that has child executions,
+            # handled failures and RetryCounts); where the reference semantics has a word for it (`sk` of Asl.run's outcome:
+            # the state visits from machine, input and worker behaviour alone) the two must agree
             try:
                 skel = cm.skeleton(machines_of(scn), rlab, scn.plans)
             except cm.Unsupported as e:
@@ -490,6 +513,17 @@ def run(chk):
                 chk.dist("skeleton.unsupported")
             else:
                 chk.dist("skeleton.extracted")
+                ref_sk = model_skeleton(chk, scn, s, ea)
+                mine = cm.legacy_view(skel)
+                if ref_sk is None or mine is None:
+                    chk.dist("skeleton.reference_semantics_has_no_word")
+                elif cj(ref_sk) == cj(mine):
+                    chk.dist("skeleton.reference_semantics_agrees")
+                else:
+                    chk.report("impl-differs-from-spec", {"scenario": scn.name, "machine": scn.machine, "input": scn.data, "plans": scn.plans},
+                               impl={"skeleton_from_engine_events": mine}, model={"skeleton": ref_sk},
+                               law="the visits of the crash-free run (the events the engine published) are the skeleton the "
+                                   "reference semantics computes")
             s.close()
             if ref.get("status") not in ("SUCCEEDED", "FAILED"):
                 raise common.InfraError("reference run of %s did not terminate" % scn.name)
